@@ -374,7 +374,9 @@ def check_property(pid, tier, seed):
             sel = alt["body_of"]
             for fn, msgs in main["failed_fns"].items():
                 if sel == "*" or fn in sel:
-                    if fn in main.get("panic_fns", {}):
+                    if fn in main.get("calls_uncontracted", {}):
+                        undecided.append(f"body obligation of {fn} fails, but it calls {', '.join(main['calls_uncontracted'][fn])} which has no contract (new function): undecided")
+                    elif fn in main.get("panic_fns", {}):
                         # overflow / out-of-range / failed unwrap / reachable unreachable!() / a library panic condition
                         failed.append(("body", fn, main["panic_fns"][fn][0]))
                     else:
